@@ -94,6 +94,8 @@ struct World<'a> {
     chain: HashMap<QuoteHash, bool>,
     rpc_fail: HashSet<QuoteHash>,
     slow_quotes: HashSet<QuoteHash>,
+    /// the quote hashes of every proof presented so far, in proof order
+    proof_hashes: Vec<Vec<QuoteHash>>,
     holder_data: HashMap<(PeerId, Vec<u8>), Vec<u8>>,
     delivered: usize,
     /// highest scratchpad counter ever observed stored, per key
@@ -159,6 +161,7 @@ impl<'a> World<'a> {
             chain: HashMap::new(),
             rpc_fail: HashSet::new(),
             slow_quotes: HashSet::new(),
+            proof_hashes: vec![],
             holder_data: HashMap::new(),
             delivered: 0,
             pad_high: BTreeMap::new(),
@@ -269,6 +272,9 @@ impl<'a> World<'a> {
         if p.other_addr {
             return Err("quote_for_other_address");
         }
+        if p.zero_content {
+            return Err("quote_for_zero_address");
+        }
         Ok(())
     }
 
@@ -319,7 +325,7 @@ impl<'a> World<'a> {
                 1 => QuoteSig::Forged,
                 _ => QuoteSig::OtherKey,
             };
-            let c = if is_self && p.other_addr { other_content } else { content };
+            let c = if is_self && p.zero_content { [0u8; 32] } else if is_self && p.other_addr { other_content } else { content };
             let q = data::quote(&kp, &self.stranger_node, c, age, self.rewards, sig, self.delivered as u64 * 8 + i as u64);
             if i < 3 {
                 self.chain.insert(q.hash(), p.chain[i] == 0);
@@ -333,6 +339,7 @@ impl<'a> World<'a> {
             quotes.push((claimed, q));
         }
         let bogus = p.bogus_payee.map(|b| if p.self_pos == Some(b) { (b + 1) % p.n } else { b });
+        self.proof_hashes.push(quotes.iter().map(|(_, q)| q.hash()).collect());
         let raw = quotes
             .into_iter()
             .enumerate()
@@ -381,7 +388,10 @@ impl<'a> World<'a> {
                     3 => PadForm::InflatedCounter,
                     _ => PadForm::SubstitutedContent,
                 };
-                let tag = format!("pad-data-{uid}").into_bytes();
+                let mut tag = format!("pad-data-{uid}").into_bytes();
+                if self.plan.big_pads {
+                    tag.resize(1024 * 1024 + 4096, 0x5a);
+                }
                 let pad = data::scratchpad(&owner, &self.stranger, d.counter, &tag, form);
                 let v = match &proof {
                     Some(p) => data::scratchpad_paid_value(&pad, p),
@@ -530,6 +540,29 @@ impl<'a> World<'a> {
                 v.resize(5 * 1024 * 1024 + 16, 0);
                 (v, true)
             }
+            3 if kind == 0 && proof.is_none() => {
+                // the same chunk in another (valid) msgpack encoding: a 32-bit length prefix and a trailing byte;
+                // the node must store its own canonical encoding, whatever the holder sent
+                let canon = value;
+                let body = &canon[2..];
+                let data: &[u8] = match body[0] {
+                    0xc4 => &body[2..],
+                    0xc5 => &body[3..],
+                    0xc6 => &body[5..],
+                    _ => &body[0..0],
+                };
+                if data.is_empty() {
+                    (canon, false)
+                } else {
+                    let mut v = canon[..2].to_vec();
+                    v.push(0xc6);
+                    v.extend_from_slice(&(data.len() as u32).to_be_bytes());
+                    v.extend_from_slice(data);
+                    v.push(0x00);
+                    self.rep.fault("chunk_in_non_canonical_encoding");
+                    (v, false)
+                }
+            }
             _ => (value, false),
         };
 
@@ -624,6 +657,18 @@ impl<'a> World<'a> {
     }
 
     fn serve_ledger(&mut self, req: &ledger::LedgerRequest) {
+        // "the payment is confirmed by the payment contract": the contract must be asked about the proof's
+        // payments, all of them, not about a part of them
+        let asked: Vec<QuoteHash> = req.payments.iter().map(|(h, _)| *h).collect();
+        if !self.proof_hashes.iter().any(|p| *p == asked) && !self.rep.violations.iter().any(|v| v.rule == "contract_asked_about_other_payments_than_the_proof") {
+            let part_of = self.proof_hashes.iter().find(|p| asked.iter().all(|h| p.contains(h))).map(|p| p.len());
+            self.rep.violate(
+                "C03",
+                "contract_asked_about_other_payments_than_the_proof",
+                &[("asked", asked.len().to_string()), ("proof", part_of.map(|n| n.to_string()).unwrap_or("none".into()))],
+                format!("the node asked the payment contract about {} quote(s) while the proof it was given holds {:?}", asked.len(), part_of),
+            );
+        }
         let rpc_fail = req.payments.iter().any(|(h, _)| self.rpc_fail.contains(h));
         let reply = if rpc_fail {
             self.rep.fault("ledger_rpc_error");
